@@ -8,7 +8,8 @@ ERR_CODES = [("request nonce mismatch", 8), ("message imprint mismatch", 9), ("r
              ("unmarshalling response", 3), ("unpack TSTInfo", 7), (": HTTP ", 2), ("is empty", 10), ("illegal base64", 3),
              ("unsupported hash", 11), ("digest check failed", 9), ("does not match the enclosing signature", 9),
              ("content digest does not match", 9),
-             ("verification error", 6), ("missing content", 6), ("Post \"", 1), ("context deadline", 1), ("asn1:", 3)]
+             ("verification error", 6), ("missing content", 6), ("would exceed context deadline", 16), ("Post \"", 1),
+             ("context deadline", 1), ("Client.Timeout", 1), ("request canceled", 1), ("unexpected EOF", 1), ("asn1:", 3)]
 
 
 def err_code(text):
@@ -130,6 +131,63 @@ def seq_err_class(st, which):
 
 CLS = {"vsix": 2, "appmanifest": 1, "cosign": 3}
 
+# ---------------------------------------------------------------- authorities that misbehave in TIME: model-free oracle
+# Written from the property text: "... otherwise the next configured authority is tried, and if all fail the signing fails",
+# over "all authority behaviours per configured URL (..., hang, ...)".  Read with a clock: timestamp.timeout is the time an
+# authority is given; one that has not delivered a complete, genuine reply by then has failed, the next one must be asked
+# no later than timeout + SLACK after it was, and the call must return no later than timeout + SLACK after the last one was
+# asked.  Ground truth comes from the delivery description (what the fake authority was told to do), not from relic.
+SLACK_MS = 700
+
+
+def deliv_total(d):
+    return d["pre_ms"] + sum(c[0] for c in (d.get("chunks") or []))
+
+
+def deliv_completes(d):
+    return not d.get("refuse") and d["pre_ms"] >= 0 and not d.get("close_early") and d["end"] == "end"
+
+
+def deliv_in_time(d, t_ms):
+    """True / False, or None when the reply completes too close to the timeout to call"""
+    if not deliv_completes(d):
+        return False
+    if t_ms <= 0:
+        return True
+    tot = deliv_total(d)
+    if tot <= 0.7 * t_ms:
+        return True
+    if tot >= 1.4 * t_ms:
+        return False
+    return None
+
+
+def timed_expected(c):
+    t_ms = c["timeout_s"] * 1000
+    it = [deliv_in_time(a["deliv"], t_ms) for a in c["auths"]]
+    if any(x is None for x in it):
+        return None
+    good = [bool(x and genuine(a["attrs"], c["style"])) for x, a in zip(it, c["auths"])]
+    if c["ctx_class"] == "limiter":
+        return "err", [], -1, it, good
+    if c["ctx_class"] == "first":
+        return "err", [0], -1, it, good
+    g = [i for i, x in enumerate(good) if x]
+    if g:
+        return "ok", list(range(g[0] + 1)), g[0], it, good
+    return "err", list(range(len(good))), -1, it, good
+
+
+def timed_label(c):
+    return "timeout %ds%s%s %s via %s: %s" % (
+        c["timeout_s"], (", caller deadline %d ms" % c["ctx_ms"]) if c["ctx_ms"] else "", (", rate limit %g/s" % c["rate_limit"]) if c["rate_limit"] else "",
+        c["style"], c["via"], " > ".join("%s/%s" % (a["content"], a["deliv"]["name"]) for a in c["auths"]))
+
+
+def timed_model_val(c):
+    return [4, [c["timeout_s"], c["ctx_ms"] if c["ctx_ms"] else -1, c.get("wait_ms", 0), c["style"] == "legacy",
+                [[False, a["script"], reply_val(a["attrs"])] for a in c["auths"]]]]
+
 
 def run(ctx, replay=None):
     st = ctx.prepare(["C10_gen"], ["C10"], "C10.Run")
@@ -171,6 +229,10 @@ def run(ctx, replay=None):
     verify = [c for c in cases if c["kind"] == "verify"]
     cache = [c for c in cases if c["kind"] == "cache"]
     vseq = [c for c in cases if c["kind"] == "vseq"]
+    timed = [c for c in cases if c["kind"] == "timed"]
+    for c in timed:
+        if c.get("hits") is None:
+            c["hits"] = []
     for c in skipped:
         ctx.violation("C10:sign:setup:" + c["type"], "sign case could not be set up: " + (c.get("err_text") or ""), {"cases": [c]}, False)
 
@@ -371,6 +433,116 @@ def run(ctx, replay=None):
             elif spec and not acc:
                 ctx.violation("C10:verify-seq:rejected-valid", "rejected (%s) although everything is valid at the judgement time: %s" % ((stp.get("err") or "")[:80], what), obj, False)
 
+    # ================================================================ model-free oracle: authorities that misbehave in time
+    timed_skipped = 0
+    timed_model = {}
+    if model_ok and timed:
+        try:
+            for c, r in zip(timed, ctx.run_model([timed_model_val(c) for c in timed])):
+                timed_model[c["id"]] = r
+        except RuntimeError as e:
+            ctx.violation("C10:model-eval", str(e)[-300:], {"output": str(e)}, False)
+    unset_unjudged = 0
+    for c in timed:
+        exp = timed_expected(c)
+        if exp is None:
+            timed_skipped += 1
+            continue
+        exp_res, exp_hits, exp_origin, in_time, goodv = exp
+        t_ms = c["timeout_s"] * 1000
+        # timestamp.timeout unset / negative: the limit the client works under is whatever the source gives for that value
+        # (limits_of, from the generated definitions); it must be the 60 s default
+        eff_ms = t_ms
+        if t_ms <= 0:
+            m = timed_model.get(c["id"])
+            eff_ms = m[8][0] if m else None
+            if eff_ms is not None and eff_ms > 0 and eff_ms != 60000:
+                ctx.violation("C10:timed:timeout-unset:default-not-60s", "for timestamp.timeout = %d the source gives the client an overall limit of %d ms, expected the 60 s default" % (c["timeout_s"], eff_ms),
+                              {"cases": [c], "limits_ms": m[8]}, False)
+        hits = c.get("hits") or []
+        obs_idx = [h["idx"] for h in hits]
+        exp_obs = [i for i in exp_hits if c["auths"][i]["attrs"]["observed"]]
+        label = timed_label(c)
+        obj = {"cases": [c], "expected": {"result": exp_res, "hits": exp_hits, "origin": exp_origin, "answers_in_time": in_time}}
+        dname = lambda i: c["auths"][i]["deliv"]["name"] if 0 <= i < len(c["auths"]) else "none"
+        if not c["req_ok"]:
+            ctx.violation("C10:timed:request", "request does not conform: " + c.get("req_note", ""), obj)
+        if c["result"] == "ok-nil":
+            ctx.violation("C10:timed:success-without-token", "success without a token: " + label, obj)
+            continue
+        if c["result"] == "panic":
+            ctx.violation("C10:timed:panic", "panic (%s): %s" % (c.get("err_text"), label), obj)
+            continue
+        if c["result"] == "ok":
+            o = c["origin"]
+            if not (0 <= o < len(c["auths"])) or not genuine(c["auths"][o]["attrs"], c["style"]):
+                ctx.violation("C10:timed:accepted-non-genuine", "the token of authority %d is not genuine: %s" % (o, label), obj)
+                continue
+            if c["via"] == "tam" and (not c["stamped"] or c.get("verify_err")):
+                ctx.violation("C10:timed:tam:output", "TimestampAndMarshal succeeded but the output %s: %s" %
+                              ("carries no timestamp" if not c["stamped"] else "does not verify (%s)" % c["verify_err"][:80], label), obj)
+                continue
+            if not c["ext_ok"]:
+                ctx.violation("C10:timed:token-fails-openssl", "openssl rejects the token for this signature value: %s (%s)" % (label, (c.get("ext_note") or "")[-100:]), obj)
+                continue
+        # (1) the outcome: first good authority in order, or failure after all were asked (what a rate limiter in front does
+        #     with a caller deadline shorter than its wait is not part of the property: model comparison only)
+        if c["ctx_class"] == "limiter":
+            continue
+        if c["result"] != exp_res or (c["result"] == "ok" and c["origin"] != exp_origin):
+            blocker = dname(obs_idx[-1]) if obs_idx else "none"
+            if c["result"] == "err" and exp_res == "ok":
+                ctx.violation("C10:timed:no-failover:" + blocker,
+                              "signing fails (%s) although authority %d answers in time with a genuine token; the last authority asked was %d (`%s`), %d ms after the start: %s" %
+                              ((c.get("err_text") or "")[:90].replace("\n", " "), exp_origin, obs_idx[-1] if obs_idx else -1, blocker, c["wall_ms"], label), obj)
+            elif c["result"] == "ok" and exp_res == "ok":
+                ctx.violation("C10:timed:wrong-authority:" + dname(c["origin"]),
+                              "the token of authority %d (`%s`) was used, expected authority %d: %s" % (c["origin"], dname(c["origin"]), exp_origin, label), obj)
+            else:
+                ctx.violation("C10:timed:wrong-outcome", "expected %s, got %s/%d: %s" % (exp_res, c["result"], c["origin"], label), obj)
+            continue
+        if obs_idx != exp_obs:
+            ctx.violation("C10:timed:hit-order", "authorities asked %s, expected %s: %s" % (obs_idx, exp_obs, label), obj)
+            continue
+        # (2) the clock: nobody is waited for longer than the timeout
+        late = None
+        for j, h in enumerate(hits):
+            nxt = hits[j + 1]["at_ms"] if j + 1 < len(hits) else c["wall_ms"]
+            waited = nxt - h["at_ms"]
+            if h["gone_ms"] == -1:
+                if t_ms <= 0 and eff_ms is None:
+                    unset_unjudged += 1      # no model (generated definitions broken): reported by the proof verdict
+                    continue
+                if t_ms <= 0 and eff_ms > c["cap_ms"]:
+                    continue                 # the client's default limit lies beyond the harness's cleanup: it may still wait
+                late = (h["idx"], waited, "was still being waited for when the harness cleaned up after %d ms" % c["cap_ms"])
+                break
+            if t_ms > 0 and waited > t_ms + SLACK_MS:
+                late = (h["idx"], waited, "was given %d ms" % waited)
+                break
+        if late:
+            i, waited, how = late
+            if t_ms <= 0:
+                report("C10:timed:timeout-unset:hang-blocks-failover",
+                       "timestamp.timeout = %d: the client works without any overall limit (limits from the source: %s); authority %d (`%s`) never completes its reply and %s; the next authority / the failure was reached only because the harness closed the connection: %s" %
+                       (c["timeout_s"], (timed_model.get(c["id"]) or [None] * 9)[8], i, dname(i), how, label), obj)
+            else:
+                ctx.violation("C10:timed:not-abandoned-within-timeout:" + dname(i),
+                              "authority %d (`%s`) %s although timestamp.timeout is %d ms: %s" % (i, dname(i), how, t_ms, label), obj)
+
+    # sign cases with timed authorities: the same clock rule on the real signing path
+    for c in sign:
+        hat, gat = c.get("hit_at") or [], c.get("gone_at") or []
+        if not hat or len(hat) != len(c["hits"]) or c.get("retried"):
+            continue
+        t_ms = (c.get("timeout_s") or 0) * 1000
+        for j, i in enumerate(c["hits"]):
+            nxt = hat[j + 1] if j + 1 < len(hat) else c.get("wall_ms", 0)
+            if i < len(c["seq"]) and c["seq"][i].startswith("t_") and t_ms > 0 and ((j < len(gat) and gat[j] == -1) or (j + 1 < len(hat) and nxt - hat[j] > t_ms + SLACK_MS)):
+                ctx.violation("C10:sign:%s:not-abandoned-within-timeout:%s" % (c["type"], c["seq"][i]),
+                              "%s signing: authority %d (`%s`) was waited for %d ms although timestamp.timeout is %d ms: %s" % (c["type"], i, c["seq"][i], nxt - hat[j], t_ms, c["seq"]), {"cases": [c]})
+                break
+
     # ================================================================ correspondence with the model
     mism, evaluated = [], 0
     if model_ok and cases:
@@ -453,13 +625,51 @@ def run(ctx, replay=None):
                         why.append("step %d `%s`: Coq spec_chain_accept disagrees with the python oracle" % (i, stp["label"]))
                 if why:
                     mism.append((c, why))
-            evaluated = len(client) + len(sign) + len(verify) + seq_steps
+            for c in timed:
+                r = timed_model.get(c["id"])
+                if r is None:
+                    continue
+                kind, code, mhits, tend, sk, sid, sh, per, lims = r
+                why = []
+                hits = c["hits"]
+                okind = {"ok": 0, "err": 1, "panic": 2}.get(c["result"], 9)
+                observed = lambda i: c["auths"][i]["attrs"]["observed"]
+                mh = [(i, t) for i, t in mhits if observed(i)]
+                if kind == 3:      # the model says the call never returns: the last authority asked is waited for without end
+                    j = len(mh) - 1
+                    if [h["idx"] for h in hits[:j + 1]] != [i for i, _ in mh] or hits[j]["gone_ms"] != -1:
+                        why.append("model: never returns, waiting for authority %d; impl hits=%s" % (mh[-1][0] if mh else -1, [(h["idx"], h["at_ms"], h["gone_ms"]) for h in hits]))
+                else:
+                    if kind != okind:
+                        why.append("result kind model=%d impl=%d (%s)" % (kind, okind, (c.get("err_text") or "")[:60]))
+                    elif kind == 0 and code != c["origin"]:
+                        why.append("origin model=%d impl=%d" % (code, c["origin"]))
+                    elif kind == 1 and err_code(c.get("err_text")) not in (code, -1):
+                        why.append("error class model=%d impl=%d (%s)" % (code, err_code(c.get("err_text")), (c.get("err_text") or "")[:60]))
+                    if [h["idx"] for h in hits] != [i for i, _ in mh]:
+                        why.append("hits model=%s impl=%s" % ([i for i, _ in mh], [h["idx"] for h in hits]))
+                    else:
+                        for n, (h, (i, t)) in enumerate(zip(hits, mh)):
+                            if abs(h["at_ms"] - t) > 450 + 100 * n:
+                                why.append("authority %d asked at %d ms, model says %d ms" % (i, h["at_ms"], t))
+                        if abs(c["wall_ms"] - tend) > 600 + 100 * len(mh):
+                            why.append("returned after %d ms, model says %d ms" % (c["wall_ms"], tend))
+                # the Coq specification must agree with this file's oracle (two independent writings)
+                exp = timed_expected(c)
+                if exp is not None and c["ctx_class"] in ("none", "patient") and c["timeout_s"] > 0:
+                    e_res, e_hits, e_origin, it, goodv = exp
+                    if [bool(p[0]) for p in per] != [bool(x) for x in it] or (0 if e_res == "ok" else 1, e_origin, e_hits) != (sk, sid, sh):
+                        if lims[1:] == [0, 0, 0]:     # the oracle knows one limit only: the overall timeout
+                            why.append("Coq spec_timed disagrees with the python oracle: spec=(%d,%d,%s) in_time=%s oracle=(%s,%d,%s) in_time=%s" % (sk, sid, sh, [p[0] for p in per], e_res, e_origin, e_hits, it))
+                if why:
+                    mism.append((c, why))
+            evaluated = len(client) + len(sign) + len(verify) + seq_steps + len(timed)
         except RuntimeError as e:
             ctx.violation("C10:model-eval", str(e)[-300:], {"output": str(e)}, False)
     if mism and not any(v[2] for v in ctx.violations):
         c, why = mism[0]
         ctx.violation("C10:correspondence:" + c["kind"], "model and implementation disagree on %d cases (first: %s %s: %s); no case violates the property" %
-                      (len(mism), c["kind"], c.get("seq") or c.get("token") or c.get("name"), "; ".join(why)),
+                      (len(mism), c["kind"], c.get("seq") or c.get("token") or c.get("name") or (timed_label(c) if c["kind"] == "timed" else ""), "; ".join(why)),
                       {"cases": [c], "why": why, "broken": "correspondence C10.Run"}, False)
     ctx.proof_verdict()
 
@@ -472,6 +682,11 @@ def run(ctx, replay=None):
     for c in verify:
         dist["verify/" + c["form"] + "/" + c["token"]] = dist.get("verify/" + c["form"] + "/" + c["token"], 0) + 1
     dist["cache"] = len(cache)
+    for c in timed:
+        k = "timed/%s/%s/t%d/%s" % (c["style"], c["via"], c["timeout_s"], c["ctx_class"])
+        dist[k] = dist.get(k, 0) + 1
+    dist["timed/boundary-skipped"] = timed_skipped
+    dist["timed/timeout-unset-not-judged-without-model"] = unset_unjudged
     for c in vseq:
         k = "vseq/" + c["name"].split(":")[0] + "/len%d" % len(c["steps"])
         dist[k] = dist.get(k, 0) + 1
@@ -488,7 +703,11 @@ def run(ctx, replay=None):
         nontrivial.add(("m", c["name"]))
     for c in vseq:
         nontrivial.add(("q", c["name"]))
+    for c in timed:
+        nontrivial.add(("t", c["style"], c["via"], c["timeout_s"], c["ctx_ms"], c["rate_limit"], tuple((a["content"], a["deliv"]["name"]) for a in c["auths"])))
     cov = ctx.proof_coverage([
+        "srcgen translator, time: which duration fields of http.Client / http.Transport / net.Dialer tsclient.New sets and their values as functions of timestamp.timeout, which client and which context tsClient.do uses, the error checks after Do and ReadAll, every early exit of the failover loop with its guard, limiter order (Generated/C10_gen.v, round 3)",
+        "net/http semantics of the modelled limits (Client.Timeout and context deadlines bound the whole exchange including the body read; Dialer.Timeout / TLSHandshakeTimeout / ResponseHeaderTimeout bound their phase only) are written in C10/Timing.v and validated against the real net/http by the timed harness cases (hit times and return time within 450-600 ms of the model)",
         "srcgen translator (PKIStatus constants; conditions of ParseResponse, SanityCheckToken, tsClient.Timestamp/do, TimestampAndMarshal, Verify, MessageImprint.Verify, VerifyMicrosoftToken, TimestampedSignature.VerifyChain; call orders; presence of the final error returns; pkcs7.Signature.VerifyChain / CounterSignature.VerifyChain / TimestampedSignature.VerifyChain translated statement by statement into the chain-verification IR (C10/ChainIR.v); inventory of package-level mutable state of lib/pkcs7, lib/pkcs9, lib/x509tools and its uses on the verification path, by syntactic analysis with callee-name call closure)",
         "correspondence harness cmd/drv-c10: fake TSA over httptest whose genuine replies are produced by `openssl ts -reply` / `openssl cms -sign` and mutated per behaviour; real tsclient, real signers via signinit.Init + module Sign/Apply/Verify, real pkcs7/pkcs9 verification with Go-minted certificate windows",
         "openssl 3 (`ts -verify`, `cms -verify`) as independent judge of returned/attached tokens",
@@ -496,15 +715,18 @@ def run(ctx, replay=None):
     samples = [{k: c.get(k) for k in ("kind", "style", "seq", "hits", "result", "origin")} for c in client[300:302]] + \
               [{k: c.get(k) for k in ("kind", "type", "pool", "seq", "hits", "result", "stamped", "origin")} for c in sign[2:4]] + \
               [{k: c.get(k) for k in ("kind", "form", "token", "leaf", "tsa", "ts_result", "chain", "accepted")} for c in verify[13:15]] + \
-              [{"kind": "vseq", "name": c["name"], "steps": [(x["label"], x["verdict"], x["fresh"]) for x in c["steps"]]} for c in vseq[1:3]]
+              [{"kind": "vseq", "name": c["name"], "steps": [(x["label"], x["verdict"], x["fresh"]) for x in c["steps"]]} for c in vseq[1:3]] + \
+              [{"kind": "timed", "case": timed_label(c), "result": c["result"], "origin": c["origin"], "wall_ms": c["wall_ms"],
+                "hits": [(h["idx"], h["at_ms"], h["gone_ms"]) for h in c["hits"]]} for c in timed[6:7] + timed[30:31]]
     retried = [c for c in sign if c.get("retried")]
     if retried:
         ctx.notes.append("unrelated to C10: %d sign operations hit the intermittent `apply: EOF` of the %s transformer (reader goroutine still using the input descriptor when Apply starts) and were repeated" % (len(retried), sorted(set(c["type"] for c in retried))))
-    cov.update({"evaluations": len(client) + len(sign) + len(verify) + sum(len(c["steps"]) for c in cache) + 2 * seq_steps,
+    cov.update({"evaluations": len(client) + len(sign) + len(verify) + sum(len(c["steps"]) for c in cache) + 2 * seq_steps + len(timed),
+                "timed_cases": len(timed),
                 "history_cases": len(vseq), "history_steps": seq_steps,
                 "model_evaluations": evaluated,
                 "distinct_nontrivial": len(nontrivial),
-                "rule": "client: every sequence of <=2 authority behaviours over the full behaviour list (17 RFC 3161 / 8 legacy), every sequence of 3 over the core behaviours, plus each remaining behaviour in first/middle/last position, context-expiry cases; sign: 13 signer types x pools (default/named/none/flag-off) x behaviour sequences; verify: 8 leaf windows x 12 token/TSA scenarios + TSA boundary windows + counterSignature form; cache: 6 multi-step scenarios; histories: for the signer certificate and for the authority certificate, every (accepting step in {in lifetime, exactly notBefore, exactly notAfter}) x (rejecting step in {no timestamp, after expiry, notAfter+1s, before notBefore, notBefore-1s}) in the orders accept>reject and reject>accept>reject with one leaf certificate, one CertPool object and one usage per history, plus histories that change the trust-store object / its contents / the usage / the bundled and caller-supplied intermediates / carry a foreign root; every step is also verified once as the first act of a fresh process. non-trivial = distinct inputs on which at least one authority was contacted / a verification decision was taken",
+                "rule": "client: every sequence of <=2 authority behaviours over the full behaviour list (17 RFC 3161 / 8 legacy), every sequence of 3 over the core behaviours, plus each remaining behaviour in first/middle/last position, context-expiry cases; sign: 13 signer types x pools (default/named/none/flag-off) x behaviour sequences; verify: 8 leaf windows x 12 token/TSA scenarios + TSA boundary windows + counterSignature form; cache: 6 multi-step scenarios; histories: for the signer certificate and for the authority certificate, every (accepting step in {in lifetime, exactly notBefore, exactly notAfter}) x (rejecting step in {no timestamp, after expiry, notAfter+1s, before notBefore, notBefore-1s}) in the orders accept>reject and reject>accept>reject with one leaf certificate, one CertPool object and one usage per history, plus histories that change the trust-store object / its contents / the usage / the bundled and caller-supplied intermediates / carry a foreign root; every step is also verified once as the first act of a fresh process; time: fake authorities over real TCP that refuse, hang before the headers, close before the headers, stall after the headers / in mid-body / before the last byte / without Content-Length, drip one byte per 60 ms, close in mid-body, answer too late (headers in time, body late; headers late), or answer slowly but in time (one piece, five pieces, without Content-Length), each followed by a healthy authority and alone, non-genuine content delivered slowly, sequences of different hangs, all authorities hanging, timeouts 1 s and 2 s, and unset / negative (default 60 s: the harness ends the silent connection after 2.5 s and the case is judged by the model under the limit the source gives, which must be 60 s), callers without / with a patient / with an early deadline, legacy style, the rate limiter in front, through tsclient.Timestamp and through pkcs9.TimestampAndMarshal (output re-verified), and real pe-coff / jar / appmanifest signing with stalling and dripping authorities; every hit is time-stamped and it is recorded whether the client or the harness ended a silent connection. non-trivial = distinct inputs on which at least one authority was contacted / a verification decision was taken",
                 "samples": samples, "exhaustive": False, "input_distribution": dist,
                 "model_mismatches": len(mism),
                 "finding_cases": finding_cases})
@@ -513,4 +735,5 @@ def run(ctx, replay=None):
         "validity of a token's own signature, DER parsing and x509 path validation are attributes of the model's inputs (oracles); the harness supplies them by construction and cross-checks with openssl",
         "Go's x509: zero CurrentTime means now; NotBefore/NotAfter inclusive",
         "history model: crypto/x509 path validation is the oracle path_ok (windows at one instant, EKU, issuer in the pool directly or through one bundled / caller-supplied intermediate); process state outside lib/pkcs7, lib/pkcs9, lib/x509tools (Go runtime, crypto/x509 internals such as the lazily parsed pool entries) is assumed not to influence verdicts — the harness compares every verdict with a fresh process",
-        "memcache contents are trusted (a cached token is returned without re-validation)"])
+        "memcache contents are trusted (a cached token is returned without re-validation)",
+        "time: an authority is a finite script of (delay, event) after which it is silent for ever; DNS resolution, redirects, proxies and HTTP/2 are not modelled; a deadline and an event at the same instant are resolved in favour of the deadline (the harness keeps 30% of the timeout between them); the harness ends a silent connection after timeout + 2.5 s to clean up and records that it did"])
